@@ -32,7 +32,7 @@ const (
 )
 
 var (
-	referrerTagRe = regexp.MustCompile(`^(sha256|sha512)-([0-9a-f]{64})$`)
+	referrerTagRe = regexp.MustCompile(`^(sha256-[0-9a-f]{64}|sha512-[0-9a-f]{128})$`)
 )
 
 // Store interface is used to abstract access to a backend storage system for repositories.
